@@ -232,6 +232,154 @@ Replace(c, keep, ps, hw) ==
   /\ UNCHANGED <<open, dbOpen, cfg>>
 
 -------------------------------------------------------------------------------
+(* ExBatch(items): ONE message.StoreAppendBatch call carrying several exact items
+   items[i] = [c, pid, b, recs, mode, hw] (storeAppendBatchOwner).  The items of a channel are
+   prepared in the order of the call, under the channel's append lock, against the state
+   INCLUDING the earlier items of the same call:
+     P = the (cached) log end before the call, V = the virtual log end, raised by every item
+     that stages rows.  For an item with base b
+       b > V                  a gap: conflict, resume at V + 1
+       P <= b < V  (V > P)    it can only be the replay of a proposal staged by this very
+                              call (same command, range and content): "already" durable, but
+                              only together with the group's commit; anything else conflicts
+       b = V > P              pipelined behind a staged item (prepareAdjacentExactAppendLocked):
+                              the command, its last offset and its entry slots must be free,
+                              staged and stored; rows validated; then the committed value
+       b <= P                 the single-item path of ExAppend against the stored state
+                              (prepareExactAppendRecordsLocked): a new proposal at b = P = V,
+                              replays of stored proposals, conflicts
+   Row validation shares ONE in-call duplicate tracker per channel (appendValidationSeen):
+   an id or a (sender, client number) key of an earlier item of the call is a duplicate
+   exactly like a stored one (C08), although the earlier item is not committed yet (the
+   membership filter already holds its key, the durable point read cannot find it).
+   Everything the items stage (rows, indexes, identities, proposals, the highest raised
+   watermark), for every channel of the call, goes into one commit request = one physical
+   batch; the replies are aligned with the items.
+
+   Environment contract in addition to ExAppend's: items of different channels carry
+   different message ids (an id is allocated once per node; the in-call tracker is per
+   channel); an item that was validated but not staged (rejected rows) leaves its ids and
+   keys in the tracker, which the property does not speak about: later items of that
+   channel in the same call do not reuse them; a pipelined item (base above the log end) is
+   chained on one predecessor: the earlier items of the call that end at its base are one and
+   the same proposal. *)
+BItem(c, pid, b, recs, mode, hw) == [c |-> c, pid |-> pid, b |-> b, recs |-> recs, mode |-> mode, hw |-> hw]
+IdsOf(recs)  == {recs[i].id : i \in 1..Len(recs)}
+KeysOf(recs) == {KeyOf(recs[i]) : i \in {j \in 1..Len(recs) : HasKey(recs[j])}}
+
+\* per channel: what the call has staged so far; r / w = reply of the item just prepared and
+\* whether its rows were validated without being staged; dep = the reply waits for the commit
+BAcc0(c) == [V |-> Leo(c), sp |-> Empty, sid |-> << >>, recs |-> << >>, ck |-> 0,
+             sI |-> {}, sK |-> {}, fl |-> mem[c].fl, fk |-> mem[c].fk,
+             r |-> XRes("", "none", 0, 0, 0), w |-> FALSE, dep |-> FALSE]
+
+BStep(c, a0, it) ==
+  LET a     == [a0 EXCEPT !.w = FALSE, !.dep = FALSE]
+      P     == Leo(c)
+      b     == it.b
+      recs  == it.recs
+      last  == b + Len(recs)
+      me    == [base |-> b, last |-> last, recs |-> recs]
+      raise == IF it.hw > CkHW(c) THEN it.hw ELSE 0
+      v     == Walk(c, it.mode, recs, 1, b + 1, a.sI, a.sK, a.fl, a.fk)
+      Ref(need) == [a EXCEPT !.r = XRes("rejected", "none", 0, 0, need)]
+      RefW      == [a EXCEPT !.r = XRes("rejected", "none", 0, 0, 0), !.fl = v.fl, !.fk = v.fk, !.w = TRUE]
+      Already(dep) == [a EXCEPT !.r = XRes("", "already", b + 1, last, 0), !.ck = MaxOf(@, raise),
+                                !.dep = dep \/ raise > 0]
+      Staged == [a EXCEPT !.r = XRes("", "durable", b + 1, last, 0), !.ck = MaxOf(@, raise), !.V = last,
+                          !.sp = Put(@, it.pid, me), !.sid = @ \o [i \in 1..Len(recs) |-> it.pid],
+                          !.recs = @ \o recs, !.sI = @ \cup IdsOf(recs), !.sK = @ \cup KeysOf(recs),
+                          !.fl = v.fl, !.fk = v.fk, !.dep = TRUE]
+      present   == it.pid \in DOMAIN prop[c]
+      same      == present /\ prop[c][it.pid] = me
+      predOK    == b = 0 \/ \E q \in DOMAIN prop[c] : prop[c][q].last = b
+      lastTaken == \E q \in DOMAIN prop[c] \ {it.pid} : prop[c][q].last = last
+      entTaken  == \E s \in (b + 1)..last : s \in DOMAIN ident[c]
+      fresh     == it.mode = "alloc" /\ b = P
+  IN IF b > a.V THEN Ref(a.V + 1)
+     ELSE IF a.V > P /\ b >= P /\ b < a.V
+       THEN IF it.pid \in DOMAIN a.sp /\ a.sp[it.pid] = me /\ ~(it.hw > 0 /\ CkHW(c) > a.V)
+              THEN Already(TRUE) ELSE Ref(0)
+     ELSE IF b > P
+       THEN IF it.pid \in DOMAIN a.sp \/ present \/ lastTaken \/ entTaken THEN Ref(0)
+            ELSE IF v.err # "" THEN RefW
+            ELSE IF it.hw > 0 /\ CkHW(c) > last THEN RefW
+            ELSE Staged
+     ELSE IF ~predOK THEN Ref(0)
+     ELSE IF ~fresh /\ ((present /\ ~same) \/ (~present /\ (lastTaken \/ entTaken))) THEN Ref(0)
+     ELSE IF it.hw > 0 /\ CkHW(c) > MaxOf(P, last) THEN Ref(0)
+     ELSE IF same THEN (IF P < last THEN Ref(0) ELSE Already(FALSE))
+     ELSE IF b # P THEN Ref(0)
+     ELSE IF v.err # "" THEN RefW
+     ELSE Staged
+
+RECURSIVE BFold(_, _, _)
+BFold(items, i, st) ==
+  IF i > Len(items) THEN st
+  ELSE LET c == items[i].c
+           a == BStep(c, st.A[c], items[i])
+       IN BFold(items, i + 1, [A |-> [st.A EXCEPT ![c] = a], res |-> Append(st.res, a.r),
+                               wk |-> Append(st.wk, a.w), dep |-> Append(st.dep, a.dep)])
+BRun(items) == BFold(items, 1, [A |-> [c \in Chans |-> BAcc0(c)], res |-> << >>, wk |-> << >>, dep |-> << >>])
+
+RECURSIVE IdIdxAll(_, _, _)
+IdIdxAll(f, S, F) ==
+  IF S = {} THEN f
+  ELSE LET c == CHOOSE x \in S : TRUE
+       IN IdIdxAll(IdIdxAfter(f, c, F[c].recs, Leo(c) + 1, 1), S \ {c}, F)
+
+\* the environment contract of one call (see above)
+BatchEnv(items, run) ==
+  /\ Compat /\ Len(items) >= 1
+  /\ \A i \in 1..Len(items) :
+       LET it == items[i] IN
+       /\ Usable(it.c)
+       /\ it.mode \in {"strict", "alloc"}
+       /\ it.recs # << >>
+       /\ it.b + Len(it.recs) <= MaxSeq
+       /\ it.hw <= it.b + Len(it.recs)
+       /\ (it.mode = "alloc" /\ it.b = Leo(it.c) => it.pid \notin DOMAIN prop[it.c])
+       /\ (~(it.pid \in DOMAIN prop[it.c]
+             /\ prop[it.c][it.pid] = [base |-> it.b, last |-> it.b + Len(it.recs), recs |-> it.recs])
+             => EnvOK(it.c, it.mode, it.recs))
+  /\ \A i, j \in 1..Len(items) : i < j =>
+       /\ (items[i].c # items[j].c => IdsOf(items[i].recs) \cap IdsOf(items[j].recs) = {})
+       \* the caller pipelines an item on ONE predecessor: the items of the call that end at its base are one proposal
+       /\ \A k \in 1..Len(items) : k < j /\ items[i].c = items[j].c /\ items[k].c = items[j].c /\ items[j].b > Leo(items[j].c)
+                                     /\ items[i].b + Len(items[i].recs) = items[j].b /\ items[k].b + Len(items[k].recs) = items[j].b
+                                     => items[i].pid = items[k].pid /\ items[i].b = items[k].b /\ items[i].recs = items[k].recs
+       /\ (items[i].c = items[j].c /\ run.wk[i] =>
+             /\ IdsOf(items[i].recs) \cap IdsOf(items[j].recs) = {}
+             /\ KeysOf(items[i].recs) \cap KeysOf(items[j].recs) = {})
+
+\* the state after the group's commit, from the accumulators F of the channels T of the call
+BatchCommit(F, T) ==
+  /\ rows'  = [c \in Chans |-> IF c \in T THEN RowsAfter(c, F[c].recs, Leo(c) + 1) ELSE rows[c]]
+  /\ idIdx' = IdIdxAll(idIdx, T, F)
+  /\ idem'  = [c \in Chans |-> IF c \in T THEN IdemAfter(idem[c], F[c].recs, Leo(c) + 1, 1) ELSE idem[c]]
+  /\ cli'   = [c \in Chans |-> IF c \in T THEN CliAfter(c, F[c].recs, Leo(c) + 1) ELSE cli[c]]
+  /\ snd'   = [c \in Chans |-> IF c \in T THEN SndAfter(c, F[c].recs, Leo(c) + 1) ELSE snd[c]]
+  /\ ckpt'  = [c \in Chans |-> IF c \in T /\ F[c].ck > CkHW(c) THEN [has |-> TRUE, hw |-> F[c].ck] ELSE ckpt[c]]
+  /\ ident' = [c \in Chans |->
+                 IF c \notin T THEN ident[c]
+                 ELSE [s \in DOMAIN ident[c] \cup ((Leo(c) + 1)..(Leo(c) + Len(F[c].recs))) |->
+                         IF s > Leo(c) THEN F[c].sid[s - Leo(c)] ELSE ident[c][s]]]
+  /\ prop'  = [c \in Chans |->
+                 IF c \notin T THEN prop[c]
+                 ELSE [q \in DOMAIN prop[c] \cup DOMAIN F[c].sp |->
+                         IF q \in DOMAIN F[c].sp THEN F[c].sp[q] ELSE prop[c][q]]]
+  /\ mem'   = [c \in Chans |-> IF c \in T THEN [mem[c] EXCEPT !.fl = F[c].fl, !.fk = F[c].fk, !.leo = F[c].V] ELSE mem[c]]
+
+ChansOf(items) == {items[i].c : i \in 1..Len(items)}
+
+ExBatch(items) ==
+  LET run == BRun(items) IN
+  /\ BatchEnv(items, run)
+  /\ BatchCommit(run.A, ChansOf(items))
+  /\ ev' = [a |-> "ExBatch", items |-> items, res |-> [err |-> "", items |-> run.res]]
+  /\ UNCHANGED <<ret, open, dbOpen, cfg>>
+
+-------------------------------------------------------------------------------
 \* small proposal lists for Replace in the exhaustive runs: at most n proposals of one record
 PSets(n) == {<<>>}
               \cup (IF n >= 1 THEN {<< [pid |-> p, recs |-> << r >>] >> : p \in Pids, r \in Recs} ELSE {})
@@ -360,6 +508,60 @@ C08_DuplicateRejectedX ==
                  \/ HasKey(ev'.recs[i]) /\ KeyOf(ev'.recs[i]) \in DOMAIN idem[ev'.c]
                  \/ ev'.mode = "strict" /\ ev'.recs[i].id \in DOMAIN idIdx)
      => ev'.res.err = "rejected" /\ durableX' = durableX]_xvars
+
+\* ---- multi-item calls (ExBatch)
+\* C07: a call of one item is the single-item call (the two descriptions of the code agree).
+C07_BatchOfOneIsExAppend ==
+  [][ev'.a = "ExAppend" =>
+       LET run == BRun(<< BItem(ev'.c, ev'.pid, ev'.b, ev'.recs, ev'.mode, ev'.hw) >>)
+       IN run.res[1] = ev'.res /\ BatchCommit(run.A, {ev'.c})]_xvars
+
+\* C07: the items of a call that are reported durable occupy, per channel and in the order of
+\* the call, adjacent ranges that start at log end + 1 and end at the new (cached and durable)
+\* log end; every row stored before is unchanged; an item reported already durable is stored
+\* with its content after the call (a replay inside the call is answered together with the
+\* commit of what it replays); a call without a durable item and without a raised watermark
+\* changes nothing durable.
+DurIdx(items, res, c) == {i \in 1..Len(items) : items[i].c = c /\ res[i].out = "durable"}
+C07_BatchAtEnd ==
+  [][ev'.a = "ExBatch" =>
+       LET items == ev'.items
+           res   == ev'.res.items
+       IN /\ \A c \in Chans :
+               LET D == DurIdx(items, res, c) IN
+               /\ \A s \in RowSeqs(c) : s \in DOMAIN rows'[c] /\ rows'[c][s] = rows[c][s]
+               /\ (D = {} => rows'[c] = rows[c] /\ ident'[c] = ident[c] /\ prop'[c] = prop[c] /\ mem'[c].leo = mem[c].leo)
+               /\ \A i \in D :
+                    /\ res[i].base = items[i].b + 1 /\ res[i].last = items[i].b + Len(items[i].recs)
+                    /\ items[i].b = (IF \E k \in D : k < i THEN res[Max({k \in D : k < i})].last ELSE LogEnd(c))
+                    /\ \A n \in 1..Len(items[i].recs) : rows'[c][items[i].b + n] = items[i].recs[n]
+               /\ (D # {} => mem'[c].leo = res[Max(D)].last /\ LogEndP(c) = res[Max(D)].last)
+          /\ \A i \in 1..Len(items) :
+               res[i].out = "already" =>
+                 /\ items[i].pid \in DOMAIN prop'[items[i].c]
+                 /\ prop'[items[i].c][items[i].pid] = [base |-> items[i].b, last |-> items[i].b + Len(items[i].recs), recs |-> items[i].recs]
+                 /\ res[i].last <= LogEndP(items[i].c)
+          /\ ((\A i \in 1..Len(items) : res[i].out = "none") => durableX' = durableX)]_xvars
+
+\* C08: inside one call a duplicate is rejected exactly like a duplicate across calls: an item
+\* (not an exact replay) that repeats a stored key, a stored id (strict mode), a key or an id
+\* within itself, or a key or an id of an earlier item of the same call and channel that is
+\* reported durable, is rejected.
+C08_BatchDuplicateRejected ==
+  [][ev'.a = "ExBatch" =>
+       LET items == ev'.items
+           res   == ev'.res.items
+       IN \A j \in 1..Len(items) :
+            LET it == items[j] IN
+            (/\ res[j].out # "already"
+             /\ \/ DupInBatch(it.recs)
+                \/ \E n \in 1..Len(it.recs) :
+                      \/ HasKey(it.recs[n]) /\ KeyOf(it.recs[n]) \in DOMAIN idem[it.c]
+                      \/ it.mode = "strict" /\ it.recs[n].id \in DOMAIN idIdx
+                \/ \E k \in 1..(j - 1) :
+                      /\ items[k].c = it.c /\ res[k].out = "durable"
+                      /\ (IdsOf(items[k].recs) \cap IdsOf(it.recs) # {} \/ KeysOf(items[k].recs) \cap KeysOf(it.recs) # {}))
+            => res[j].err = "rejected"]_xvars
 
 ViewX == <<rows, ret, ckpt, idem, cli, snd, idIdx, mem, open, dbOpen, cfg, ident, prop>>
 ===============================================================================
